@@ -12,6 +12,7 @@
 // See the License for the specific language governing permissions and
 // limitations under the License.
 
+#[cfg(not(foyer_verif))]
 use std::{
     fmt::Debug,
     future::Future,
@@ -22,6 +23,19 @@ use std::{
     },
     time::Instant,
 };
+#[cfg(foyer_verif)]
+use std::{
+    fmt::Debug,
+    future::Future,
+    marker::PhantomData,
+    sync::{
+        Arc,
+        atomic::{Ordering},
+    },
+    time::Instant,
+};
+#[cfg(foyer_verif)]
+use foyer_common::verif::sync::atomic::{AtomicBool, AtomicUsize};
 
 #[cfg(feature = "tracing")]
 use fastrace::prelude::*;
@@ -585,16 +599,22 @@ where
             Age::Young => {
                 // skip write block engine if the entry is still young
                 self.inner.metrics.storage_block_engine_enqueue_skip.increase(1);
+                #[cfg(foyer_verif)]
+                foyer_common::verif::event("skip_young", piece.hash(), 0);
                 return;
             }
         }
 
         if self.inner.submit_queue_size.load(Ordering::Relaxed) > self.inner.submit_queue_size_threshold {
             self.inner.metrics.storage_queue_channel_overflow.increase(1);
+            #[cfg(foyer_verif)]
+            foyer_common::verif::event("shed", piece.hash(), 5);
             return;
         }
 
         let sequence = self.inner.sequence.fetch_add(1, Ordering::Relaxed);
+        #[cfg(foyer_verif)]
+        foyer_common::verif::event("enqueue", piece.hash(), sequence);
 
         self.inner.flushers[piece.hash() as usize % self.inner.flushers.len()].submit(Submission::CacheEntry {
             piece,
